@@ -361,15 +361,19 @@ def r4(ctx):
             ctx.check("%s.%s:last-starts-at-0" % (cname, mname), len(z) == 1, where(c.module, call), "after taking segment 0 as context, lastSequenceNumber must be 0")
 
 
-@rule("C05.R5", "no more than the window is sent per burst; fill_window is the only multi-segment sender", floor=6, engines="E0/E1")
-def r5(ctx):
+def fill_window_loop(ctx):
     prog = ctx.prog
     c, f = _fn(ctx, "SSM", "fill_window")
     seq = f.args.args[1].arg
     loops = [n for n in walk_shallow(f) if isinstance(n, (ast.For, ast.While))]
     if len(loops) != 1 or not isinstance(loops[0], ast.For):
         raise ShapeError("SSM.fill_window: one for-loop expected")
-    lp = loops[0]
+    return c, f, loops[0], seq
+
+
+def burst_bound(ctx, c, f, lp, seq):
+    """(also registered as C12.R5) one burst asks for exactly actualWindowSize consecutive segments"""
+    prog = ctx.prog
     # the segment numbers the loop asks for, computed for a grid of (first segment, window): start, start+1, .. start+window-1
     ix = norm(lp.target)
     gets = [x for x in calls_in(lp) if self_call(x) == "get_segment"]
@@ -403,6 +407,18 @@ def r5(ctx):
                 break
     ctx.check("SSM.fill_window:bound", ok_bound, where(c.module, lp), "the burst must be limited to actualWindowSize passes (found %s)" % found)
     ctx.check("SSM.fill_window:consecutive", ok_cons, where(c.module, lp), "iteration k must send segment start+k")
+
+
+@rule("C05.R5", "no more than the window is sent per burst; fill_window is the only multi-segment sender", floor=6, engines="E0/E1")
+def r5(ctx):
+    prog = ctx.prog
+    c, f = _fn(ctx, "SSM", "fill_window")
+    seq = f.args.args[1].arg
+    loops = [n for n in walk_shallow(f) if isinstance(n, (ast.For, ast.While))]
+    if len(loops) != 1 or not isinstance(loops[0], ast.For):
+        raise ShapeError("SSM.fill_window: one for-loop expected")
+    lp = loops[0]
+    burst_bound(ctx, c, f, lp, seq)
     sends = [x for x in calls_in(lp) if norm(x.func) in ("self.ssmSAP.request", "self.request", "self.response")]
     ctx.check("SSM.fill_window:one-send-per-iteration", len(sends) == 1 and not facts_at(sends[0], stop=lp), where(c.module, lp), "each iteration sends exactly one segment unconditionally")
     # per pass through the loop body: the final segment (more-follows false) ends the burst and records sentAllSegments,
@@ -660,3 +676,49 @@ def r10(ctx):
     for cname, name, call, v, v2 in vals["send"]:
         n[(cname, name)] = n.get((cname, name), 0) + 1
         ctx.check("%s.%s:retransmits-after-Tseg#%d" % (cname, name, n[(cname, name)]), v == 1000 and v2 == 3000, where(prog.cls(MOD, cname).module, call), "the sender's segment timer must be the configured segment timeout (found %s for 1000)" % v)
+
+
+@rule("C05.R11", "when the reply to a request is lost the whole request is sent again: a segmented request goes through the segmented-request state machine again, not just its first segment", floor=1,
+      engines="E1 paths")
+def r11(ctx):
+    c, f = _fn(ctx, "ClientSSM", "await_confirmation_timeout")
+    n = 0
+    for p_ in enumerate_paths(f):
+        if p_.term == "raise":
+            continue
+        calls = p_.calls()
+        if any(self_call(x) == "abort" for x in calls):
+            continue
+        n += 1
+        again = [x for x in calls if self_call(x) == "indication" and len(x.args) == 1 and norm(x.args[0]) == "self.segmentAPDU"]
+        direct = [x for x in calls if self_call(x) in ("request", "fill_window")]
+        single = any(norm(t).replace(" ", "") in ("self.segmentCount==1", "self.segmentCount<=1", "self.segmentCount<2") and pol for t, pol in p_.conds())
+        ok = (len(again) == 1 and not direct) or (bool(direct) and single)
+        ctx.check("ClientSSM.await_confirmation_timeout:whole-request-again", ok, where(c.module, f),
+                  "a retry must hand the saved request to indication() again (which segments it and waits for the segment-acks); sending segment 0 alone strands a request of several segments")
+    if n == 0:
+        raise ShapeError("ClientSSM.await_confirmation_timeout: no retry path found")
+
+
+@rule("C05.R12", "a duplicated (late) segment-ack after the last segment of a request is harmless: while waiting for the confirmation it neither aborts nor completes the transaction", floor=1,
+      engines="E1 paths + E5")
+def r12(ctx):
+    prog = ctx.prog
+    c, f = _fn(ctx, "ClientSSM", "await_confirmation")
+    apdu = f.args.args[1].arg
+    ev = Evaluator(prog, c.module, c)
+    sa = prog.cls("apdu", "SegmentAckPDU")
+    code = prog.const(sa.module, sa.attrs["pduType"], sa)
+    n = 0
+    ok = True
+    why = ""
+    for p_ in enumerate_paths(f):
+        if not feasible(p_, ev, {"%s.apduType" % apdu: code, "isinstance:%s" % apdu: "SegmentAckPDU"}):
+            continue
+        n += 1
+        calls = [self_call(x) for x in p_.calls()]
+        if p_.term == "raise" or "abort" in calls or "set_state" in calls or "response" in calls or "request" in calls:
+            ok = False
+            why = p_.describe()[:160]
+    ctx.check("ClientSSM.await_confirmation:stray-segment-ack-ignored", ok and n >= 1, where(c.module, f),
+              "a segment-ack that arrives (again) while the confirmation is awaited must be ignored, not answered with an abort or an exception: %s" % why)
